@@ -4,6 +4,7 @@ import (
 	"fmt"
 	"go/constant"
 	"go/token"
+	"go/types"
 
 	"golang.org/x/tools/go/ssa"
 )
@@ -128,23 +129,50 @@ func checkC02(c *Ctx) {
 	sigConsts := constsWithPrefix(u.Pkgs["pkg/error"], "SigType")
 	cont, brk := sigConsts["SigTypeContinue"], sigConsts["SigTypeBreak"]
 	drivers := map[string]bool{"pkg/exec.evalWhileLoopStmt": true, "pkg/exec.evalIterateStmt": true}
+	// signal-kind predicates: helpers `func(err error, kind uint8) bool` that answer true only for a *Signal
+	// whose SigType equals the kind parameter; a test through such a helper counts like the inline test
+	sigPred := map[*ssa.Function]int{}
+	for _, f := range u.srcFuncs("pkg/exec") {
+		if idx, ok := signalPredicate(f); ok {
+			sigPred[f] = idx
+		}
+	}
 	for _, f := range u.srcFuncs("pkg/exec") {
 		fn := u.fname(f)
+		if _, isPred := sigPred[f]; isPred {
+			continue
+		}
 		for _, b := range f.Blocks {
 			ifi, ok := b.Instrs[len(b.Instrs)-1].(*ssa.If)
 			if !ok {
 				continue
 			}
-			bo, ok := ifi.Cond.(*ssa.BinOp)
-			if !ok || bo.Op != token.EQL {
+			var k int64
+			switch cnd := ifi.Cond.(type) {
+			case *ssa.BinOp:
+				if cnd.Op != token.EQL {
+					continue
+				}
+				base, isSig := fieldLoad(cnd.X, "SigType")
+				cst, isConst := cnd.Y.(*ssa.Const)
+				if !isSig || !isConst || !namedTypeIs(base.Type(), "pkg/error", "Signal") {
+					continue
+				}
+				k = cst.Int64()
+			case *ssa.Call:
+				callee := cnd.Call.StaticCallee()
+				idx, isPred := sigPred[callee]
+				if callee == nil || !isPred || idx >= len(cnd.Call.Args) {
+					continue
+				}
+				cst, isConst := cnd.Call.Args[idx].(*ssa.Const)
+				if !isConst {
+					continue
+				}
+				k = cst.Int64()
+			default:
 				continue
 			}
-			base, isSig := fieldLoad(bo.X, "SigType")
-			cst, isConst := bo.Y.(*ssa.Const)
-			if !isSig || !isConst || !namedTypeIs(base.Type(), "pkg/error", "Signal") {
-				continue
-			}
-			k := cst.Int64()
 			if k != cont && k != brk {
 				continue
 			}
@@ -398,4 +426,55 @@ func shortName(s string) string {
 		}
 	}
 	return s
+}
+
+// signalPredicate: f(…, kind, …) bool returns true only when an argument is a *zerr.Signal whose SigType
+// equals the parameter `kind` (every returned value is the constant false or that comparison)
+func signalPredicate(f *ssa.Function) (int, bool) {
+	res := f.Signature.Results()
+	if res.Len() != 1 || len(f.Blocks) == 0 {
+		return 0, false
+	}
+	if b, ok := res.At(0).Type().Underlying().(*types.Basic); !ok || b.Kind() != types.Bool {
+		return 0, false
+	}
+	kind := -1
+	for _, b := range f.Blocks {
+		ret, ok := b.Instrs[len(b.Instrs)-1].(*ssa.Return)
+		if !ok {
+			continue
+		}
+		for _, s := range allSources(retValue(ret, 0)) {
+			switch x := s.(type) {
+			case *ssa.Const:
+				if x.Value == nil || constant.BoolVal(x.Value) {
+					return 0, false
+				}
+			case *ssa.BinOp:
+				if x.Op != token.EQL {
+					return 0, false
+				}
+				l, r := x.X, x.Y
+				if _, isP := l.(*ssa.Parameter); isP {
+					l, r = r, l
+				}
+				base, isSig := fieldLoad(l, "SigType")
+				par, isPar := r.(*ssa.Parameter)
+				if !isSig || !isPar || !namedTypeIs(base.Type(), "pkg/error", "Signal") {
+					return 0, false
+				}
+				for i, q := range f.Params {
+					if q == par {
+						if kind >= 0 && kind != i {
+							return 0, false
+						}
+						kind = i
+					}
+				}
+			default:
+				return 0, false
+			}
+		}
+	}
+	return kind, kind >= 0
 }
